@@ -3,7 +3,7 @@
 // Contracts for the deductive verifier in /verif (comment-only: adds no declarations).
 package main
 
-//@ use strings nethttp fmt oauth2 neturl time ssh crypto errors x509 keymasterd_jose
+//@ use strings nethttp fmt oauth2 neturl time ssh crypto errors x509 keymasterd_jose pwauth
 
 // ---- C17: post-login redirects stay on the keymaster origin ------------------------------------
 //@ pure func noControlBytes(s string) bool = (forallIdx j int :: 0 <= j && j < len(s) ==> s[j] >= 0x20 && s[j] != 0x7f)
@@ -79,6 +79,17 @@ package main
 //@ ghost var ghostAuthLevel int
 //@ ghost var ghostAuthIssuedAt int64
 
+// Evidence predicates: uninterpreted; each one is introduced only by the postcondition of the function that
+// performs the corresponding check, whose own contract (below) says what was checked.
+//@ ghost func kmCertUser(state *RuntimeState, chains [][]*x509.Certificate, user string, notBefore int64) bool
+//@ ghost func ipCertUser(state *RuntimeState, chains [][]*x509.Certificate, remoteAddr string, user string) bool
+//@ ghost func passwordAccepted(checker pwauth.PasswordAuthenticator, user string, password string) bool
+//@ ghost var ghostPwTokens int
+
+//@ pure func viaCookie(state *RuntimeState, ai *authInfo) bool = (exists tok string :: verifiedByKeymaster(state, tok) && claimsAuthJWT(tok).TokenType == "keymaster_auth" && claimsAuthJWT(tok).Issuer == state.idpGetIssuer() && claimsAuthJWT(tok).Subject == ai.Username && claimsAuthJWT(tok).AuthType == ai.AuthType && claimsAuthJWT(tok).Expiration * 1000000000 == timeNanos(ai.ExpiresAt) && timeNanos(ai.ExpiresAt) >= nowNanos())
+//@ pure func viaTLS(state *RuntimeState, r *http.Request, ai *authInfo) bool = r.TLS != nil && ((ai.AuthType == AuthTypeKeymasterX509 && kmCertUser(state, r.TLS.VerifiedChains, ai.Username, timeNanos(ai.IssuedAt))) || (ai.AuthType & AuthTypeIPCertificate != 0 && ipCertUser(state, r.TLS.VerifiedChains, r.RemoteAddr, ai.Username)))
+//@ pure func viaPassword(state *RuntimeState, ai *authInfo) bool = ai.AuthType == AuthTypePassword && (exists pw string :: passwordAccepted(state.passwordChecker, ai.Username, pw))
+
 //@ func (*RuntimeState).checkAuth
 //@   results ai, err
 //@   ensures err == nil ==> ai != nil
@@ -88,6 +99,24 @@ package main
 //@   ghostset ghostAuthUser string = ai.Username if err == nil
 //@   ghostset ghostAuthLevel int = ai.AuthType if err == nil
 //@   ghostset ghostAuthIssuedAt int64 = timeNanos(ai.IssuedAt) if err == nil
+//@   ensures err == nil ==> ai.AuthType & requiredAuthType != 0                                             #C06.kind @C06
+//@   ensures err == nil ==> viaCookie(state, ai) || viaTLS(state, r, ai) || viaPassword(state, ai)           #C06.established @C06,C01,C04
+//@   ensures err == nil && r.Method != "GET" && getOriginOrReferrer(r) != "" && r.Host != "" ==> urlHostOf(getOriginOrReferrer(r)) == r.Host  #C06.csrf @C06
+
+//@ func (*RuntimeState).getUsernameIfKeymasterSigned
+//@   results user, notBefore, err
+//@   ensures user != "" ==> err == nil && kmCertUser(state, VerifiedChains, user, timeNanos(notBefore))
+//@ func (*RuntimeState).getUsernameIfIPRestricted
+//@   results user, notBefore, userErr, err
+//@   ensures userErr == nil && err == nil ==> ipCertUser(state, VerifiedChains, r.RemoteAddr, user)
+//@ func (*RuntimeState).checkPasswordAttemptLimit
+//@   inline always
+//@   ghostset ghostPwTokens int = ghostPwTokens + 1 if ret0 == nil
+//@ func checkUserPassword
+//@   requires ghostPwTokens >= 1                                                                          #C14.limiter-first @C14
+//@   ghostset ghostPwTokens int = ghostPwTokens - 1
+//@   ensures ret0 ==> ret1 == nil && passwordAccepted(passwordChecker, username, password)                  #C07.backend-verdict @C07
+//@   ensures ret0 ==> passwordChecker != nil && backendAccepts(passwordChecker, username, password)
 
 // ---- C01: which proven factors satisfy the operator's list (from the property text) ----------------------
 //@ pure func factorMatches(method string, lvl int) bool = method == "password" || (method == "U2F" && lvl&AuthTypeU2F == AuthTypeU2F) || (method == "TOTP" && lvl&AuthTypeTOTP == AuthTypeTOTP) || (method == "SymantecVIP" && lvl&AuthTypeSymantecVIP == AuthTypeSymantecVIP) || (method == "IPCertificate" && lvl&AuthTypeIPCertificate == AuthTypeIPCertificate) || (method == "Okta2FA" && lvl&AuthTypeOkta2FA == AuthTypeOkta2FA) || (method == "WebauthForCLI" && lvl&AuthTypeWebauthForCLI == AuthTypeWebauthForCLI)
@@ -136,7 +165,7 @@ package main
 //@   requires ghostAuthed                                                                                #C06.authed-role @C06
 
 // ---- C04: signed tokens are unforgeable and purpose-bound ---------------------------------------------------
-//@ pure func verifiedByKeymaster(state *RuntimeState, raw string) bool = (exists i int :: 0 <= i && i < len(state.KeymasterPublicKeys) && sigVerifies(raw, state.KeymasterPublicKeys[i]))
+//@ opaque func verifiedByKeymaster(state *RuntimeState, raw string) bool = (exists i int :: 0 <= i && i < len(state.KeymasterPublicKeys) && sigVerifies(raw, state.KeymasterPublicKeys[i]))
 //@ func publicToPreferedJoseSigAlgo
 //@   ensures ret1 == nil ==> asymmetricAlg(ret0)                                                         #C04.sig-alg @C04
 //@ func (*RuntimeState).getJoseKeymastedVerifierList
@@ -146,6 +175,7 @@ package main
 //@ func (*RuntimeState).JWTClaims
 //@   inline always
 //@ func (*RuntimeState).getAuthInfoFromJWT
+//@   reveal verifiedByKeymaster
 //@   ensures err == nil ==> verifiedByKeymaster(state, serializedToken)                                    #C04.auth-verified @C04
 //@   ensures err == nil ==> claimsAuthJWT(serializedToken).Issuer == state.idpGetIssuer()                  #C04.auth-issuer @C04
 //@   ensures err == nil ==> len(claimsAuthJWT(serializedToken).Audience) >= 1 && claimsAuthJWT(serializedToken).Audience[0] == state.idpGetIssuer()  #C04.auth-audience @C04
@@ -155,6 +185,7 @@ package main
 //@   ensures err == nil ==> timeNanos(rvalue.ExpiresAt) == claimsAuthJWT(serializedToken).Expiration * 1000000000 && timeNanos(rvalue.IssuedAt) == claimsAuthJWT(serializedToken).IssuedAt * 1000000000  #C04.auth-times @C04
 
 //@ func (*RuntimeState).getStorageDataFromStorageStringDataJWT
+//@   reveal verifiedByKeymaster
 //@   ensures err == nil ==> verifiedByKeymaster(state, serializedToken)                                    #C04.storage-verified @C04,C07
 //@   ensures err == nil ==> claimsStorageJWT(serializedToken).Issuer == state.idpGetIssuer() && len(claimsStorageJWT(serializedToken).Audience) >= 1 && claimsStorageJWT(serializedToken).Audience[0] == state.idpGetIssuer()  #C04.storage-issuer-audience @C04
 //@   ensures err == nil ==> claimsStorageJWT(serializedToken).TokenType == "storage_data"                  #C04.storage-kind @C04
@@ -168,6 +199,7 @@ package main
 // under contract; the record it accepts went through getStorageDataFromStorageStringDataJWT above.
 
 //@ func (*RuntimeState).updateAuthJWTWithNewAuthLevel
+//@   reveal verifiedByKeymaster
 //@   results newtok, err
 //@   ensures err == nil ==> verifiedByKeymaster(state, intoken)                                            #C04.update-verified @C04
 //@   ensures err == nil ==> claimsAuthJWT(intoken).Issuer == state.idpGetIssuer() && len(claimsAuthJWT(intoken).Audience) >= 1 && claimsAuthJWT(intoken).Audience[0] == state.idpGetIssuer()  #C04.update-issuer-audience @C04
